@@ -3,6 +3,8 @@ package mon
 import (
 	"bytes"
 	"fmt"
+	"math/rand"
+	"sort"
 	"strings"
 
 	"github.com/foxglove/mcap/go/mcap"
@@ -140,6 +142,73 @@ func smallFileCase(ctx *core.Ctx, stream string, i int) *Case {
 
 const c09Stripes = 4
 
+// bigFileCase: a file holding a record above 1 MiB and chunks above 64 KiB, too large to cut at every
+// byte; the cuts are all positions within 64 bytes after every top-level record boundary, after every
+// chunk payload start and around the huge record, plus seeded positions in between.
+func bigFileCase(ctx *core.Ctx, i int) *Case {
+	r := gen.Rng(ctx.Seed, "c09big", i)
+	c := &Case{Index: 1_000_000 + i, Seed: ctx.Seed}
+	c.Shape = gen.Shape{Schemas: 1, Channels: 2, Messages: 6 + r.Intn(5), Attachments: 1, Metadata: 1, MaxPayload: 30000, MaxLongStr: 30, ManyMapKeys: 2, TimeMode: "asc", HugeRecords: true}
+	c.W = gen.RandWorkload(r, c.Shape)
+	for _, m := range c.W.Messages() {
+		if len(m.Data) < 20000 {
+			m.Data = append(m.Data, make([]byte, 20000+r.Intn(20000))...)
+		}
+	}
+	kinds := []struct {
+		chunked bool
+		comp    string
+	}{{true, ""}, {false, ""}, {true, "zstd"}, {true, "lz4"}}
+	k := kinds[i%4]
+	c.K = gen.Config{Chunked: k.chunked, Compression: k.comp, ChunkSize: []int64{100 << 10, 300 << 10}[r.Intn(2)], IncludeCRC: r.Intn(2) == 0, SkipMessageIndexing: r.Intn(3) == 0}
+	return c
+}
+
+// cutsFor returns the cut positions to enumerate: every byte for small files, the boundary
+// neighbourhoods plus seeded samples for big ones.
+func cutsFor(f *refmcap.File, n int, seed int64) []int {
+	if n <= 16<<10 {
+		out := make([]int, n)
+		for i := range out {
+			out[i] = i
+		}
+		return out
+	}
+	set := map[int]bool{}
+	add := func(p int) {
+		for d := -2; d < 64; d++ {
+			if p+d >= 0 && p+d < n {
+				set[p+d] = true
+			}
+		}
+	}
+	for _, r := range f.Recs {
+		add(r.Off)
+		add(r.Off + 9)
+		add(r.End())
+		if ch, ok := r.Parsed.(*refmcap.Chunk); ok {
+			add(ch.RecordsOff)
+			// inner record boundaries map to file positions only for uncompressed chunks
+			if ch.Compression == "" {
+				for _, in := range ch.Inner {
+					add(ch.RecordsOff + in.Off)
+					add(ch.RecordsOff + in.Off + 9)
+				}
+			}
+		}
+	}
+	rr := rand.New(rand.NewSource(seed))
+	for k := 0; k < 400; k++ {
+		set[rr.Intn(n)] = true
+	}
+	out := make([]int, 0, len(set))
+	for p := range set {
+		out = append(out, p)
+	}
+	sort.Ints(out)
+	return out
+}
+
 func checkC09Case(ctx *core.Ctx, i int, rep *core.Report) {
 	for s := 0; s < c09Stripes; s++ {
 		checkC09Job(ctx, i, s, rep)
@@ -149,6 +218,9 @@ func checkC09Case(ctx *core.Ctx, i int, rep *core.Report) {
 // checkC09Job enumerates the cut positions congruent to stripe modulo c09Stripes.
 func checkC09Job(ctx *core.Ctx, i, stripe int, rep *core.Report) {
 	c := smallFileCase(ctx, "c09", i)
+	if i >= 1_000_000 {
+		c = bigFileCase(ctx, i-1_000_000)
+	}
 	res := writeClean(c, rep)
 	if res == nil {
 		return
@@ -190,7 +262,13 @@ func checkC09Job(ctx *core.Ctx, i, stripe int, rep *core.Report) {
 		return
 	}
 	fullKeys := tripleKeys(fullIter.Triples)
-	for n := stripe; n < len(data); n += c09Stripes {
+	cuts := cutsFor(f, len(data), ctx.Seed+int64(i))
+	if len(cuts) < len(data) && stripe == 0 {
+		rep.Count("big_files", 1)
+		rep.Count("big_file_cuts_enumerated", int64(len(cuts)))
+	}
+	for ci := stripe; ci < len(cuts); ci += c09Stripes {
+		n := cuts[ci]
 		prefix := data[:n]
 		rep.Eval(3)
 		for _, v := range []bool{false, true} {
@@ -239,19 +317,25 @@ func checkC09Job(ctx *core.Ctx, i, stripe int, rep *core.Report) {
 			return
 		}
 	}
-	if i%6 == 0 && stripe == 0 {
-		rep.Sample(map[string]any{"case": i, "shape": c.Shape.String(), "config": c.K.String(), "file_bytes": len(data), "cuts": len(data), "chunks": len(f.Chunks())})
+	if (i%6 == 0 || i == 1_000_000) && stripe == 0 {
+		rep.Sample(map[string]any{"case": i, "shape": c.Shape.String(), "config": c.K.String(), "file_bytes": len(data), "cuts": len(cuts), "chunks": len(f.Chunks())})
 	}
 }
 
 func RunC09(ctx *core.Ctx, rep *core.Report) {
 	rep.Level = "fault_enumeration"
 	rep.Rule = "small files (about 1-6 KiB; none/zstd/lz4 chunked and unchunked in rotation; attachments, metadata, several chunks) written by the real Writer; for each file EVERY cut position 0..len-1 is read by the lexer (attachment callback reading the data; chunk CRC validation off and on) and by Messages(UsingIndex(false)). " +
+		"Additionally files of 1-2 MiB holding a record above 1 MiB and chunks above 64 KiB (thresholds of buffered and chunked read paths) are cut at every position within 64 bytes after each record boundary / chunk payload start (inner record boundaries too for uncompressed chunks) plus 400 seeded positions. " +
 		"Oracle: output is a prefix of the same reader's output on the complete file (last element may be an attachment with a proper prefix of its data), outcome is EOF or an error, no panic, and every record/message of every top-level record completely inside the prefix is returned (offsets from the reference decoder). " +
 		"distinct_nontrivial counts distinct files enumerated."
 	rep.Assumptions = []string{"record boundaries come from the reference decoder"}
 	n := ctx.Pick(24, 600)
-	core.Parallel(ctx, rep, n*c09Stripes, func(k int) {
-		checkC09Job(ctx, k/c09Stripes, k%c09Stripes, rep)
+	nb := ctx.Pick(8, 120)
+	core.Parallel(ctx, rep, (n+nb)*c09Stripes, func(k int) {
+		i := k / c09Stripes
+		if i >= n {
+			i = 1_000_000 + i - n
+		}
+		checkC09Job(ctx, i, k%c09Stripes, rep)
 	})
 }
